@@ -41,7 +41,35 @@ GrowMol(atoms, seen) ==
   IN IF nxt = {} THEN seen ELSE GrowMol(atoms, seen \cup nxt)
 OneMolecule(atoms) == Len(atoms) >= 1 /\ (\A i \in DOMAIN atoms : \A c \in 1..3 : atoms[i].p[c] % 81 = 0) /\ GrowMol(atoms, {1}) = DOMAIN atoms
 
+(* ---- crystal listings (kinds crystal-mol / crystal-atom): coordinates in units of 0.005 A ------------------------------- *)
+CCfg(x) == [cell |-> x.cell, atoms |-> x.atoms]
+CNear(a, b) == D2(a.p, b.p) <= 340 * 340
+RECURSIVE CGrow(_, _)
+CGrow(atoms, seen) ==
+  LET nxt == {i \in DOMAIN atoms : i \notin seen /\ \E j \in seen : CNear(atoms[i], atoms[j])}
+  IN IF nxt = {} THEN seen ELSE CGrow(atoms, seen \cup nxt)
+CrystalVerdict(t) ==
+  LET base == CCfg(t.base)
+      bad == {k \in 2..Len(t.poses) :
+                \/ ~CWordOK(base, t.poses[k].word) \/ CApplyWord(base, t.poses[k].word) # CCfg(t.poses[k])
+                \/ t.poses[k].exc # "" \/ ~RowsMatch(t.poses[k].rows, t.poses[1].rows, TolExact)}
+      first == CHOOSE k \in bad : \A j \in bad : k <= j
+  IN
+  IF ~(t.lmax \in 1..30 /\ Len(t.poses) >= 1 /\ t.poses[1].word = <<>> /\ CCfg(t.poses[1]) = base) THEN "OOD shape" ELSE
+  IF ~(\A k \in Idx : base.cell[k] \in 600..2400) \/ ~(\A i \in DOMAIN base.atoms : \A k \in Idx : AbsV(base.atoms[i].p[k]) <= 4000)
+     THEN "OOD cell" ELSE
+  IF CGrow(base.atoms, {1}) # DOMAIN base.atoms THEN "OOD not-one-molecule" ELSE
+  IF ~PeriodicClear(base, 460) THEN "OOD molecules-touch" ELSE
+  IF t.poses[1].exc # "" THEN "REJECT Raised:" \o t.kind ELSE
+  IF t.poses[1].rows = <<>> THEN "REJECT NoRows:" \o t.kind ELSE
+  IF bad = {} THEN "ACCEPT" ELSE
+  IF ~CWordOK(base, t.poses[first].word) THEN "OOD word" ELSE
+  IF CApplyWord(base, t.poses[first].word) # CCfg(t.poses[first]) THEN "OOD pose" ELSE
+  IF t.poses[first].exc # "" THEN "REJECT Raised:" \o t.kind ELSE
+  "REJECT ListingInvariance:" \o t.kind \o ":" \o t.channel
+
 Verdict(t) ==
+  IF t.kind \in {"crystal-mol", "crystal-atom"} THEN CrystalVerdict(t) ELSE
   LET bad == {k \in 2..Len(t.poses) : PoseVerdict(t, k) # "ok"} IN
   IF ~(t.lmax \in 1..30 /\ Len(t.poses) >= 1 /\ t.poses[1].word = <<>>) THEN "OOD shape" ELSE
   IF ~OneMolecule(t.base.inner) THEN "OOD not-one-molecule" ELSE
